@@ -12,6 +12,9 @@ import (
 	"sort"
 	"strings"
 
+	"aead.dev/minisign"
+	"github.com/ProtonMail/go-crypto/openpgp"
+	"github.com/ProtonMail/go-crypto/openpgp/packet"
 	"github.com/pojntfx/stfs/pkg/config"
 	"github.com/pojntfx/stfs/pkg/encryption"
 	"github.com/pojntfx/stfs/pkg/recovery"
@@ -634,6 +637,35 @@ func (st *signedTape) forgeries(w *Worker, rig *Rig, res *Result, c Case) int {
 		}
 		frig.Close()
 	}
+	// records signed by the attacker's own key whose signatures are relabelled to name one of the recipient's keys as issuer
+	// (pgp: primary key and every subkey, by key id and fingerprint, and no issuer at all; minisign: the recipient's key id)
+	for _, imp := range st.impersonations(rig) {
+		emb, content, ok := st.forgeAs(tgt, imp)
+		if !ok {
+			continue
+		}
+		sig := imp.sign([]byte(emb))
+		var buf bytes.Buffer
+		tw := tar.NewWriter(&buf)
+		h := st.wrapOuter(emb, &sig, rig)
+		h.Size = int64(len(content))
+		_ = tw.WriteHeader(h)
+		_, _ = tw.Write(content)
+		_ = tw.Close()
+		res.count("impersonation_forgeries", 1)
+		if !try("record signed by the attacker's key, issuer relabelled as "+imp.what+", appended", append(append([]byte(nil), st.img...), buf.Bytes()...)) {
+			return n
+		}
+		img := rewriteTape(st.img, st.recs, func(i int, outer *tar.Header, c []byte) ([]*tar.Header, [][]byte) {
+			if i == ti {
+				return []*tar.Header{st.wrapOuter(emb, &sig, rig)}, [][]byte{content}
+			}
+			return []*tar.Header{outer}, [][]byte{c}
+		})
+		if !try("record signed by the attacker's key, issuer relabelled as "+imp.what+", in place", img) {
+			return n
+		}
+	}
 	// unsigned records appended by a plain tar writer
 	for _, variant := range []string{"plain", "with STFS records", "embedded header only"} {
 		var buf bytes.Buffer
@@ -658,9 +690,101 @@ func (st *signedTape) forgeries(w *Worker, rig *Rig, res *Result, c Case) int {
 	return n
 }
 
+// impersonation is one way for somebody holding only the recipient's PUBLIC key to label a signature made with another key.
+type impersonation struct {
+	what string
+	sign func(data []byte) string
+}
+
+func (st *signedTape) impersonations(rig *Rig) (out []impersonation) {
+	foreignKeys.mu.Lock()
+	_ = foreignKeys.ensureSig(st.cfg.Sig)
+	fid := foreignKeys.sigI[st.cfg.Sig]
+	foreignKeys.mu.Unlock()
+	switch st.cfg.Sig {
+	case config.SignatureFormatMinisignKey:
+		priv, ok1 := fid.(minisign.PrivateKey)
+		pub, ok2 := rig.RC.Recipient.(minisign.PublicKey)
+		if !ok1 || !ok2 {
+			return nil
+		}
+		out = append(out, impersonation{what: "the recipient's minisign key id", sign: func(data []byte) string {
+			var sg minisign.Signature
+			if err := sg.UnmarshalText(minisign.Sign(priv, data)); err != nil {
+				return ""
+			}
+			sg.KeyID = pub.ID()
+			b, _ := sg.MarshalText()
+			return base64.StdEncoding.EncodeToString(b)
+		}})
+	case config.SignatureFormatPGPKey:
+		att, ok1 := fid.(openpgp.EntityList)
+		rcp, ok2 := rig.RC.Recipient.(openpgp.EntityList)
+		if !ok1 || !ok2 || len(att) < 1 || len(rcp) < 1 || att[0].PrivateKey == nil {
+			return nil
+		}
+		type tk struct {
+			what string
+			key  *packet.PublicKey
+		}
+		tks := []tk{{"the recipient's primary key", rcp[0].PrimaryKey}, {"nobody (no issuer subpacket)", nil}}
+		for i, sk := range rcp[0].Subkeys {
+			tks = append(tks, tk{fmt.Sprintf("the recipient's subkey %d", i), sk.PublicKey})
+		}
+		for _, t := range tks {
+			t := t
+			out = append(out, impersonation{what: t.what, sign: func(data []byte) string {
+				var c *packet.Config
+				priv := *att[0].PrivateKey
+				sig := new(packet.Signature)
+				sig.SigType = packet.SigTypeBinary
+				sig.PubKeyAlgo = priv.PubKeyAlgo
+				sig.Hash = c.Hash()
+				sig.CreationTime = c.Now()
+				if t.key != nil {
+					priv.PublicKey.KeyId = t.key.KeyId
+					priv.PublicKey.Fingerprint = t.key.Fingerprint
+					sig.IssuerKeyId = &t.key.KeyId
+				}
+				h := sig.Hash.New()
+				h.Write(data)
+				if err := sig.Sign(h, &priv, c); err != nil {
+					return ""
+				}
+				var b bytes.Buffer
+				if err := sig.Serialize(&b); err != nil {
+					return ""
+				}
+				return base64.StdEncoding.EncodeToString(b.Bytes())
+			}})
+		}
+	}
+	return
+}
+
+// forgeAs returns an embedded header naming a new file, carrying a content signature made by the impersonation over the target's
+// on-tape content bytes (so that decryption and decompression of the content still work), and those bytes.
+func (st *signedTape) forgeAs(tgt TapeRec, imp impersonation) (string, []byte, bool) {
+	var inner tar.Header
+	if err := json.Unmarshal([]byte(tgt.Embedded), &inner); err != nil {
+		return "", nil, false
+	}
+	content := st.img[tgt.ContentOff : tgt.ContentOff+tgt.ContentLen]
+	inner.Name = strings.Replace(inner.Name, "secret", "forged", 1)
+	if inner.PAXRecords == nil {
+		inner.PAXRecords = map[string]string{}
+	}
+	inner.PAXRecords["STFS.Signature"] = imp.sign(content)
+	j, err := json.Marshal(&inner)
+	if err != nil {
+		return "", nil, false
+	}
+	return string(j), content, true
+}
+
 func init() {
 	register(&Engine{Name: "tamper", Props: []string{"C08"}, Cases: tamperCases, Run: tamperRun})
 	propMeta["C08"] = PropMeta{Level: "exploration",
-		Rule:        "per tape (8 calls: mkdir, files with content, chmod, empty file, rename, remove) written under a signature format x encryption x compression: (flips) EVERY byte position of the tape is altered with each mask in {0x01,(0x80,)0xFF}, sharded over the cases; (forgeries) edited embedded header in place and appended, each with kept / removed / empty / non-base64 / base64-garbage / re-encoded / truncated / other record's signature, swapped signatures, replaced content with recomputed size, content of another signed record, records signed by a second key pair appended and prepended, unsigned records by a plain tar writer; for every altered tape the real recovery.Index, recovery.Query and recovery.Fetch (at every pristine record position and every position the resulting index points to) run with the real verifier: every header they accept must equal, field for field incl. PAX records, a header the legitimate writer signed, and every successful Fetch must return exactly the bytes signed under that header; non-trivial = at least 100 alterations (flips) / 8 forgeries; distinct = distinct case",
+		Rule:        "per tape (8 calls: mkdir, files with content, chmod, empty file, rename, remove) written under a signature format x encryption x compression: (flips) EVERY byte position of the tape is altered with each mask in {0x01,(0x80,)0xFF}, sharded over the cases; (forgeries) edited embedded header in place and appended, each with kept / removed / empty / non-base64 / base64-garbage / re-encoded / truncated / other record's signature, swapped signatures, replaced content with recomputed size, content of another signed record, records signed by a second key pair appended and prepended, records signed by that second key whose header and content signatures are relabelled to name the recipient's key as issuer (pgp: primary key, each subkey, no issuer; minisign: the recipient's key id), unsigned records by a plain tar writer; for every altered tape the real recovery.Index, recovery.Query and recovery.Fetch (at every pristine record position and every position the resulting index points to) run with the real verifier: every header they accept must equal, field for field incl. PAX records, a header the legitimate writer signed, and every successful Fetch must return exactly the bytes signed under that header; non-trivial = at least 100 alterations (flips) / 8 forgeries; distinct = distinct case",
 		Assumptions: []string{"replay, reordering and truncation of validly signed records are outside the statement and are not flagged", "with encryption on, forgeries are encrypted to the recipient's public key (which an attacker has)"}}
 }
